@@ -292,7 +292,7 @@ func (g *cg) spell(v string, stop map[string]bool) string {
 			return `"{env.` + n + `}"`
 		}
 		return "{env." + n + "}"
-	case choice == 15 && simple && len(v) >= 2: // partial placeholder inside a quoted string
+	case choice == 15 && simple && len([]rune(v)) >= 2: // partial placeholder inside a quoted string
 		n := g.envName()
 		rs := []rune(v)
 		cut := g.n("cut", 1, len(rs)-1)
